@@ -205,6 +205,85 @@ def two_frames_body(t, rate, d0, d1, d2, d3):
     return check(True)
 
 
+def abandon_body(t, rate, d0, d1, d2, d3):
+    """A generator frame is abandoned while suspended (its close is delivered as return@YIELD_VALUE with None and
+    no further event ever names it), the frame object dies, and a NEW frame -- which the allocator may place at
+    the dead frame's address -- makes a complete call.  Whatever the tracer kept about the dead frame must not be
+    taken for the new one: the new call is sampled on its own draw and traced with its own values."""
+    rate_kind = t.take(3)  # None, 1, N>=2
+    if rate_kind == 0:
+        r = None
+    elif rate_kind == 1:
+        r = 1
+    else:
+        ASSUME(rate >= 2)
+        r = rate
+    func = F.gen_rebinding
+    cv = CodeView(func.__code__)
+    entry_a, entry_b = {"x": build_value(t, G_ATOM)}, {"x": build_value(t, G_ATOM)}
+    n_yields_a = 1 + t.take(2)
+    close_delivered = t.take(2) == 1
+    y_b = build_value(t, G_ATOM)
+    ret_b = build_value(t, G_ATOM)
+    logger = ListLogger()
+    rnd = ScriptedRandom([d0, d1, d2, d3])
+    saved = T.random
+    T.random = rnd
+    try:
+        tracer = CallTracer(logger, 0, None, r)
+        tracer.cache[cv] = func
+        fa = FakeFrame(cv, dict(entry_a))
+        tracer(fa, "call", None)
+        for i in range(n_yields_a):
+            cv.co_code = [YIELD_OP]
+            tracer(fa, "return", i)
+            if i + 1 < n_yields_a:
+                tracer(fa, "call", None)
+        if close_delivered:
+            cv.co_code = [YIELD_OP]
+            tracer(fa, "return", None)  # how CPython reports the close of a suspended generator
+        logged_before = len(logger.traces)
+        old_id = id(fa)
+        del fa
+        spare = []
+        fb = FakeFrame(cv, dict(entry_b))
+        while id(fb) != old_id and len(spare) < 300:  # adversarial allocator
+            spare.append(fb)
+            fb = FakeFrame(cv, dict(entry_b))
+        before = rnd.i
+        tracer(fb, "call", None)
+        used = rnd.draws[before: rnd.i]
+        sampled_b = True if (r is None or r == 1) else (len(used) >= 1 and used[0] == 0)
+        draws_b = len(used)
+        cv.co_code = [YIELD_OP]
+        tracer(fb, "return", y_b)
+        fb.f_locals["x"] = ["rebound"]
+        tracer(fb, "call", None)
+        cv.co_code = [RETURN_OP]
+        tracer(fb, "return", ret_b)
+    finally:
+        T.random = saved
+    ASSUME(not rnd.bad)
+    new = logger.traces[logged_before:]
+    if not (r is None or r == 1) and draws_b != 1:
+        return check(False, lambda: f"rate={_i(r)}: the new call took {draws_b} sampling draws instead of one (aliased={id(fb) == old_id}): it was "
+                                    f"{'taken for a resumption of the dead frame' if draws_b == 0 else 'drawn for more than once'}")
+    if not sampled_b:
+        return check(not new, lambda: f"rate={_i(r)} draws={_draws(rnd)}: the new call was not sampled but {len(new)} trace(s) were logged")
+    if len(new) != 1:
+        return check(False, lambda: f"rate={_i(r)} draws={_draws(rnd)}: a complete, sampled call after an abandoned generator logged {len(new)} traces "
+                                    f"(aliased={id(fb) == old_id})")
+    tr = new[0]
+    if set(tr.arg_types) != {"x"} or not O.struct_eq(tr.arg_types["x"], get_type(entry_b["x"], 0)):
+        return check(False, lambda: f"the new call received {show(entry_b['x'])} but its trace says {tr.arg_types} (the abandoned call had {show(entry_a['x'])})")
+    if tr.yield_type is None or not O.struct_eq(tr.yield_type, get_type(y_b, 0)):
+        return check(False, lambda: f"the new call yielded {show(y_b)} but its trace says {O.show_type(tr.yield_type)}")
+    if tr.return_type is None or not O.struct_eq(tr.return_type, get_type(ret_b, 0)):
+        return check(False, lambda: f"the new call returned {show(ret_b)} but its trace says {O.show_type(tr.return_type)}")
+    return check(not residue(tracer, fb), "per-call state of the finished call left in the tracer")
+
+
+tape_harness("abandon", [("t", 8)], {"rate": "int", "d0": "int", "d1": "int", "d2": "int", "d3": "int"}, abandon_body, globals())
 tape_harness("sampling_two", [("t", 8)], {"rate": "int", "d0": "int", "d1": "int", "d2": "int", "d3": "int"}, two_frames_body, globals())
 
 
@@ -233,6 +312,8 @@ def shards(name):
 
     if name == "sampling_two":
         return [{f"t{j}": v for j, v in enumerate(p)} for p in enumerate_prefixes(lambda t: two_frames_body(t, 2, 0, 0, 0, 0), 3)]
+    if name == "abandon":
+        return [{f"t{j}": v for j, v in enumerate(p)} for p in enumerate_prefixes(lambda t: abandon_body(t, 2, 0, 0, 0, 0), 3)]
     mp = 2 if name == "sampling_quick" else 3
     pres = enumerate_prefixes(lambda t: sampling_body(t, 2, 0, 0, 0, 0, max_pairs=mp), 4)
     return [{f"t{j}": v for j, v in enumerate(p)} for p in pres]
